@@ -304,6 +304,7 @@ def width_groups(prog):
     ties = {f'x{i}': {'@input'} for i in range(len(prog['inputs']))}
     find('@input')
     ncat = 0
+    cat_srcs = {}
     for op in prog['ops']:
         k = op['op']
         if k == 'conv' and not op.get('dw'):
@@ -321,6 +322,7 @@ def width_groups(prog):
         elif k == 'cat':
             ncat += 1
             t = {f'@cat{ncat}'}
+            cat_srcs[f'@cat{ncat}'] = [set(ties[s_]) for s_ in op['srcs']]
         else:
             raise ValueError(k)
         for a in t:
@@ -333,6 +335,18 @@ def width_groups(prog):
     for a in out_t:
         union('@output', a)
     find('@output')
+    # a channel concat that reaches the network output fixes the width of every tensor it
+    # concatenates (nested concats: to a fixed point)
+    changed = True
+    while changed:
+        changed = False
+        for cname, srcs in cat_srcs.items():
+            if find(cname) == find('@output'):
+                for t in srcs:
+                    for a in t:
+                        if find(a) != find('@output'):
+                            union('@output', a)
+                            changed = True
     frozen_roots = {find('@input'), find('@output')}
     layers = {op['name'] for op in prog['ops'] if op['op'] in ('conv', 'lin')}
     frozen = {l for l in layers if l in parent and find(l) in frozen_roots}
